@@ -1,6 +1,8 @@
 package loadbalancer
 
 import (
+	"time"
+
 	"github.com/0xReLogic/Helios/internal/verifrt"
 )
 
@@ -76,4 +78,43 @@ func verifAt(v []bool, idx uint64) bool {
 		r = verifrt.Or(r, verifrt.And(idx == uint64(i), v[i]))
 	}
 	return r
+}
+
+// VerifC02History: dispatch after explicit histories of ejections (through the
+// real MarkBackendUnhealthy), time passing and requests, against ghost windows.
+func VerifC02History(strategy int, k int) {
+	lb := verifBareLB(strategy)
+	bs := verifPool(lb, 9, 2, false)
+	win := int64(verifrt.IntRange("window", 1, 1<<40))
+	now := int64(0)
+	until := []int64{-1, -1} // ghost: end of the current unhealthy window, -1 = never ejected
+	r := verifRequest("10.1.2.3:4711")
+	for i := 0; i < k; i++ {
+		switch verifrt.Choice("op", 3) {
+		case 0:
+			j := verifrt.Choice("backend", 2)
+			lb.MarkBackendUnhealthy(bs[j], time.Duration(win))
+			until[j] = now + win
+		case 1:
+			dt := int64(verifrt.IntRange("dt", 1, 1<<41))
+			verifrt.Advance(time.Duration(dt))
+			now += dt
+		case 2:
+			got := lb.findHealthyBackend(r)
+			in0, in1 := until[0] >= 0 && now < until[0], until[1] >= 0 && now < until[1]
+			if got == bs[0] {
+				verifrt.Assert(!in0, "a request is never dispatched to a backend inside its unhealthy window (after any history)")
+			}
+			if got == bs[1] {
+				verifrt.Assert(!in1, "a request is never dispatched to a backend inside its unhealthy window (after any history)")
+			}
+			if got == nil {
+				done0, done1 := until[0] < 0 || now > until[0], until[1] < 0 || now > until[1]
+				verifrt.Known("C02-flag-filter-stale", strategy >= 2)
+				// least_connections with equal gauges always picks b0: ejected b0 hides healthy b1
+				verifrt.Known("C02-lc-min-gauge-ejected", strategy == 1 && !done0)
+				verifrt.Assert(!done0 && !done1, "503 after a history only if every backend is inside its unhealthy window")
+			}
+		}
+	}
 }
